@@ -106,6 +106,12 @@ def run(ctx: Context) -> None:
     _infra.cf_inventory_bounds(ctx, 'R05.8')
     from .common import adopt_foundations as _adopt
     _adopt(ctx, 'R05.7', ['geometry', 'order'], floor=60)
+    ctx.rule('R05.9', "the names a caller chose for the new dimension are kept: a default is substituted only where none was given", floor=3)
+    with ctx.section('R05.9'):
+        from . import infra as _infra9
+        _infra9.none_default_discipline(ctx, 'R05.9', ['emsarray.conventions._base.Convention.select_points', 'emsarray.conventions._base.DimensionConvention.selector_for_indexes',
+                                                       'emsarray.operations.point_extraction.extract_points'])
+        _infra9.passes_parameters_on(ctx, 'R05.9', 'emsarray.conventions._base.Convention.select_points', "select_points stands for extract_points")
     ctx.assume("xarray Dataset.isel with a Dataset of integer arrays on a shared new dimension performs pointwise positional selection; pandas/xarray merges align on the point dimension")
 
     # ------------------------------------------------------------------ select_indexes
@@ -634,9 +640,15 @@ def run(ctx: Context) -> None:
         ok_xy = False
         if len(ptc) == 1 and ptc[0].args:
             a = flow.resolve(ptc[0].args[0])
+            # numpy.c_[x, y] reads as numpy.column_stack((x, y)) (normalise_library_spellings)
+            pair_ = None
             if isinstance(a, ast.Subscript) and (dotted(a.value) or '').endswith('.c_') and isinstance(a.slice, ast.Tuple) and len(a.slice.elts) == 2:
+                pair_ = a.slice.elts
+            elif isinstance(a, ast.Call) and callee(ctx, ed, a) == 'numpy.column_stack' and len(a.args) == 1 and isinstance(flow.resolve(a.args[0]), (ast.Tuple, ast.List)) and len(flow.resolve(a.args[0]).elts) == 2:
+                pair_ = flow.resolve(a.args[0]).elts
+            if pair_ is not None:
                 cols = []
-                for e in a.slice.elts:
+                for e in pair_:
                     if isinstance(e, ast.Subscript) and flow.canon(e.value) == ('param', ed.params[1]):
                         cols.append(flow.canon(e.slice))
                 cc = ('param', 'coordinate_columns')
@@ -747,6 +759,8 @@ from ..variants import V  # noqa: E402
 _B = 'src/emsarray/conventions/_base.py'
 _P = 'src/emsarray/operations/point_extraction.py'
 VARIANTS = [
+    V('C05', 'custom-point-dimension-discarded', 'src/emsarray/conventions/_base.py', "        if point_dimension is None:\n            point_dimension = utils.find_unused_dimension(self.dataset, 'point')", "        if point_dimension is not None:\n            point_dimension = utils.find_unused_dimension(self.dataset, 'point')", 'R05.9'),
+    V('C05', 'select-points-policy-not-forwarded', 'src/emsarray/conventions/_base.py', "self.dataset, points, point_dimension=point_dimension, missing_points=missing_points)", "self.dataset, points, point_dimension=point_dimension)", 'R05.9'),
     V('C05', 'filled-integers-keep-dtype', 'src/emsarray/operations/point_extraction.py', "                del variable.encoding['dtype']", "                pass", 'R05.3'),
     V('C05', 'stale-encoding-of-coordinates-kept', 'src/emsarray/operations/point_extraction.py', "        for variable in point_dataset.variables.values():", "        for variable in point_dataset.data_vars.values():", 'R05.3'),
     V('C05', 'table-keeps-own-index', 'src/emsarray/operations/point_extraction.py', "    dataframe = dataframe.reset_index(drop=True)", "    dataframe = dataframe.copy()", 'R05.6'),
